@@ -250,4 +250,28 @@ pub fn run<W: Write>(opts: &Opts, out: &mut W) {
         }
         emit(out, &format!("webp-rnd-{i}"), "webp", &Sparse::from_bytes(&f), &Cfg::default(), r.chance(1, 2), &mut r, false);
     }
+    // webp: the input ends inside trailing chunks that are only skipped (allowed unknown chunks, EXIF / XMP): every way
+    // of feeding it must say so
+    for i in 0..(if opts.tier_thorough { 200 } else { 30 }) {
+        idx += 1;
+        if !opts.mine(idx) {
+            continue;
+        }
+        let mut r = rng.fork(9000 + i);
+        let meta = i % 2 == 1;
+        let mut chunks = vec![chunk(b"VP8X", &vp8x_payload(if meta { 0x0c } else { 0 }, 1, 1)), chunk(b"VP8L", &pl.vp8l_for(1, 1))];
+        let first_tail = riff(&chunks).len();
+        let mut names: Vec<&[u8; 4]> = if meta { vec![b"EXIF", b"XMP "] } else { vec![] };
+        for _ in 0..1 + r.below(2) {
+            names.push(*r.pick(&[b"unkn", b"junk"]));
+        }
+        for name in names {
+            let n = 2 * r.below(12) as usize + if r.chance(1, 3) { 1 } else { 0 };
+            chunks.push(chunk(name, &r.bytes(n)));
+        }
+        let mut f = riff(&chunks);
+        let cut = first_tail + r.below((f.len() - first_tail) as u64 + 1) as usize;
+        f.truncate(cut);
+        emit(out, &format!("webp-cut-{i}"), "webp", &Sparse::from_bytes(&f), &Cfg::default(), i % 4 != 3, &mut r, false);
+    }
 }
